@@ -166,6 +166,12 @@ def dominating_facts(body, x, depth=0, _cache=None):
     _cache[(x, depth)] = facts          # provisional (cuts cycles)
     be = _back_edges(body)
     preds = [(p, lab) for p, lab in body.preds().get(x, []) if (p, lab) not in be and not body.blocks[p]["cleanup"]]
+    # walk up a straight line of single-predecessor blocks to the merge point above it
+    hops = 0
+    while len(preds) == 1 and body.blocks[preds[0][0]]["term"]["k"] != "switch" and hops < 40:
+        y = preds[0][0]
+        preds = [(p, lab) for p, lab in body.preds().get(y, []) if (p, lab) not in be and not body.blocks[p]["cleanup"]]
+        hops += 1
     if len(preds) >= 2 and depth < 3 and len(preds) <= 8:
         inter = None
         for p, lab in preds:
@@ -193,7 +199,7 @@ def _back_edges(body):
 
 
 def _is_plain_enum(ty):
-    return ty.startswith(("s3s::", "s3s_fs::", "s3s_policy::", "s3s_aws::")) and "<" not in ty.split("::")[-1]
+    return ty.startswith(("s3s::", "s3s_fs::", "s3s_policy::", "s3s_aws::"))
 
 
 def _enum_def_sites(body, l, names):
